@@ -443,7 +443,7 @@ unit(id="ifelse.recreate", src=CF + "if_else.rs", path=[("impl", "Recreate for I
      stubs=["iws.recreate"], fragments=["opspecs", "semantics"], broadcast=["sem_axioms::sem"],
      requires=[f"{RC} is Ok && {RC}->Ok_0 is Variable ==> {RC}->Ok_0->Variable_0 is Bool"],
      ensures=[
-         ("ifelse.recreate.unobservable", ["C04", "C12"],
+         ("ifelse.recreate.unobservable", ["C04", "C07", "C12"],
           "r is Ok ==> (" + sem_ifelse("r->Ok_0", "*self") + ")"),
          ("ifelse.recreate.condition_error_stops", ["C04"], f"{RC} is Err ==> r == Err::<Instruction, ExecError>({RC}->Err_0)"),
          ("ifelse.recreate.constant_true_keeps_first_branch_only", ["C04", "C12"],
